@@ -89,7 +89,7 @@ def l2_sweep_events(run, rng, quick):
     te.evolve_1site, te.evolve_0site, te.evolve_2site = w1, w0, w2
     reqs, meta = [], []
     try:
-        for _ in range(12 if quick else 120):
+        for _ in range(12 if quick else 24):
             descs = lt.random_basis_descs(rng, int(rng.integers(2, 7)), qn_mode="none", kinds=["spin"])
             descs2, spec = lt.random_tree_spec(rng, descs, n_dummy=int(rng.integers(0, 2)), max_group=1)
             n = len(spec["groups"])
